@@ -3,6 +3,7 @@ C06 — query functions reflect exactly the edits made.  Reference-model level o
 (the refinement of the column store to this model is in Qsx/Proofs/StoreRefine*.lean as it lands).
 -/
 import Qsx.Model.Spec
+import Qsx.Proofs.SymtabSound
 
 namespace Qsx.Props.C06
 open Qsx.Spec
@@ -14,5 +15,78 @@ theorem step_total (p : Prob) (op : Op) : (step p op).2 = .ok ∨ (step p op).2 
 /-- a rejected call leaves the reference problem unchanged (used by C07) -/
 theorem err_unchanged (p : Prob) (op : Op) (h : (step p op).2 = .err) : (step p op).1 = p := by
   cases op <;> simp only [step] at h ⊢ <;> (repeat' split at h) <;> simp_all
+
+/-! ### the symbol table behind every name query (symtab.c, model `Qsx.Symtab`)
+
+For every history of registrations (named or unnamed, with table growth and string-pool
+maintenance) and deletions (swap with the last entry) the hash structure stays consistent, the
+table holds exactly the list a four-line specification computes, and a lookup returns exactly the
+position of the name in that list. -/
+
+namespace Sym
+open Qsx.Symtab
+
+inductive Op
+  | reg (s : Option Name) (idx : Int)
+  | del (s : Name)
+
+def step (t : T) : Op → T
+  | .reg s i => (register t s i).1
+  | .del s => (delete t s).1
+
+/-- the specification: a plain list of optional names -/
+def specStep (l : List (Option Name)) : Op → List (Option Name)
+  | .reg none _ => l ++ [none]
+  | .reg (some n) _ => if some n ∈ l then l else l ++ [some n]
+  | .del s => specDelete l s
+
+theorem history_from (ops : List Op) : ∀ (t : T), WF t →
+    WF (ops.foldl step t) ∧ abs (ops.foldl step t) = ops.foldl specStep (abs t) := by
+  induction ops with
+  | nil => intro t hw; exact ⟨hw, rfl⟩
+  | cons op ops ih =>
+    intro t hw
+    simp only [List.foldl_cons]
+    have hstep : WF (step t op) ∧ abs (step t op) = specStep (abs t) op := by
+      cases op with
+      | reg s i =>
+        refine ⟨register_wf hw s i, ?_⟩
+        have := (register_abs hw s i).1
+        cases s <;> simpa [step, specStep] using this
+      | del s => exact ⟨delete_wf hw s, (delete_abs hw s).1⟩
+    obtain ⟨h1, h2⟩ := ih (step t op) hstep.1
+    exact ⟨h1, by rw [h2, hstep.2]⟩
+
+end Sym
+
+/-- every reachable symbol table is well formed and holds the specified list of names -/
+theorem symtab_history (n : Nat) (ops : List Sym.Op) :
+    Qsx.Symtab.WF (ops.foldl Sym.step (Qsx.Symtab.create n)) ∧
+    Qsx.Symtab.abs (ops.foldl Sym.step (Qsx.Symtab.create n)) = ops.foldl Sym.specStep [] := by
+  have := Sym.history_from ops (Qsx.Symtab.create n) (Qsx.Symtab.create_wf n)
+  simpa [Qsx.Symtab.abs, Qsx.Symtab.create] using this
+
+/-- after any history a lookup answers exactly what the specified list says: entry `e` iff the list
+has the name at position `e` -/
+theorem symtab_lookup_history (n : Nat) (ops : List Sym.Op) (s : Qsx.Symtab.Name) (e : Nat) :
+    Qsx.Symtab.lookup (ops.foldl Sym.step (Qsx.Symtab.create n)) s = some e ↔
+      (ops.foldl Sym.specStep [])[e]? = some (some s) := by
+  obtain ⟨hw, habs⟩ := symtab_history n ops
+  rw [Qsx.Symtab.lookup_iff hw, ← habs, Qsx.Symtab.abs_getElem?]
+  constructor
+  · intro h
+    rw [if_pos (Qsx.Symtab.nameAt_lt h), h]
+  · intro h
+    split at h
+    · simpa using h
+    · cases h
+
+/-- the hypotheses are met by a non-trivial history: three names into a table of initial size 1
+(two growth steps), one deletion in the middle -/
+example :
+    let ops : List Sym.Op := [.reg (some [97]) 0, .reg (some [98]) 1, .reg (some [99]) 2, .del [97]]
+    ops.foldl Sym.specStep [] = [some [99], some [98]] ∧
+    Qsx.Symtab.lookup (ops.foldl Sym.step (Qsx.Symtab.create 1)) [99] = some 0 := by
+  decide +kernel
 
 end Qsx.Props.C06
